@@ -114,8 +114,23 @@ def storeCOps {σ : Type} (c : StoreCCfg) (S : StoreOps σ) : CacheOps σ where
   keys s := (s, StoreC.keys c S s)
   clean s := StoreC.clean c S s
 
-/-- `StoreCache.__init__`: the cache directory is created if it is not there -/
+/-- `path.lstrip("/")` -/
+def StoreC.normPath : Str → Str
+  | '/' :: r => StoreC.normPath r
+  | s => s
+
+/-- the configuration `StoreCache.__init__` keeps: `self.path = path.lstrip("/")` (entries are filed under the path without
+leading slashes — `to_path` —, `keys()` and `clean()` look there too) -/
+def StoreCCfg.norm (c : StoreCCfg) : StoreCCfg := { c with path := StoreC.normPath c.path }
+
+/-- the directory part of `StoreCache.__init__` (for the path it keeps): the cache directory is created if it is not there -/
 def storeCInit {σ : Type} (c : StoreCCfg) (S : StoreOps σ) (s : σ) : σ :=
   if StoreC.okB false (S.isDir s (StoreC.splitSlash c.path)) then s else StoreC.okB s (S.makedir s (StoreC.splitSlash c.path))
+
+/-- **`StoreCache(store, path, flat)`**: the operations of the constructed cache … -/
+def storeCacheOps {σ : Type} (c : StoreCCfg) (S : StoreOps σ) : CacheOps σ := storeCOps c.norm S
+
+/-- … and the store it leaves behind -/
+def storeCacheNew {σ : Type} (c : StoreCCfg) (S : StoreOps σ) (s : σ) : σ := storeCInit c.norm S s
 
 end Liquer
